@@ -116,13 +116,54 @@ fn run(setup: &Setup, now: i64, version: Option<usize>, order: Order) -> RunSpec
     RunSpec { now, serve: serve(setup, version), order, update: None, tamper: vec![] }
 }
 
+/// The CAs some version of `focus` has a certificate for.
+fn child_cas(world: &World, focus: &str) -> BTreeSet<String> {
+    let mut res = BTreeSet::new();
+    for version in &world.ca(focus).expect("focus CA").versions {
+        for obj in &version.objects {
+            let mut all = vec![obj];
+            if let Publish::Replace(other) = &obj.publish { all.push(other) }
+            for obj in all {
+                if let ObjKind::Ca { ca, .. } = &obj.kind { res.insert(ca.clone()); }
+            }
+        }
+    }
+    res
+}
+
+/// Ground truth: what the subtree of `focus` contributes when `version` is
+/// the version used: the version's own payload plus the payload of every
+/// child CA it has a valid certificate for (children publish one valid
+/// version each and have no children of their own).
+fn subtree_payload(
+    world: &World, focus: &str, version: usize, now: i64, opts: &EngineOpts,
+) -> BTreeSet<String> {
+    let spec = world.ca(focus).expect("focus CA");
+    let v = &spec.versions[version];
+    let mut res = std_version_payload(world, focus, version, now, opts);
+    for obj in &v.objects {
+        if !matches!(obj.publish, Publish::Normal) { continue }
+        if let ObjKind::Ca { ca, .. } = &obj.kind {
+            if truth::obj_reject_reason(spec, &std_eff(focus), &v.crl, obj, now).is_none() {
+                res.extend(payload_universe(world, ca));
+            }
+        }
+    }
+    res
+}
+
 /// The oracle: the property itself on the implementation's output.
 fn oracle(
     ctx: &mut Ctx, player: &Player, input: &Value, scn: &Scenario, focus: &str, played: &Played,
 ) {
     let index = VersionIndex::new(&player.builder, &scn.world);
     let spec = scn.world.ca(focus).expect("focus CA");
-    let universe = payload_universe(&scn.world, focus);
+    // The CA's whole subtree: its own payload and that of every CA one of
+    // its versions has a certificate for (those have one version each).
+    let mut universe = payload_universe(&scn.world, focus);
+    for child in child_cas(&scn.world, focus) {
+        universe.extend(payload_universe(&scn.world, &child));
+    }
     for (r, run) in scn.runs.iter().enumerate() {
         let ob = &played.obs[r];
         if !ob.out.ok() {
@@ -137,12 +178,12 @@ fn oracle(
         let stored_before = if r == 0 { None } else { index.stored_version(&played.obs[r - 1], spec) };
         let stored_payload = match stored_before {
             None => BTreeSet::new(),
-            Some(Ok(v)) => std_version_payload(&scn.world, focus, v, run.now, &scn.opts),
+            Some(Ok(v)) => subtree_payload(&scn.world, focus, v, run.now, &scn.opts),
             Some(Err(())) => continue,
         };
         let fetched = run.serve.version_of(focus);
         let fetched_payload = fetched.map(|v| {
-            std_version_payload(&scn.world, focus, v, run.now, &scn.opts)
+            subtree_payload(&scn.world, focus, v, run.now, &scn.opts)
         });
         let complete = fetched.map(|v| truth::version_complete(&spec.versions[v])).unwrap_or(false);
         let what = json!({
@@ -283,6 +324,36 @@ fn generate(ctx: &mut Ctx) -> Vec<Value> {
         }
     }
 
+    // C''. Versions that differ in their child CA certificates (three-level tree root -> kid ->
+    //      grandchildren with their own payload): version 2 adds a child, removes the child,
+    //      or replaces the child's certificate by one pointing at another publication point;
+    //      every broken-entry position x every processing order. The oracle looks at the
+    //      whole subtree.
+    for (label, objects) in [
+        ("add", vec!["roa", "g1", "g2"]),
+        ("remove", vec!["roa", "roa2"]),
+        ("replace", vec!["roa", "g1b"]),
+    ] {
+        let setup = setup_children(&objects);
+        for variant in setup.variants.clone() {
+            let all = perms(setup.entries);
+            for (k, perm) in all.iter().enumerate() {
+                if variant.fault.is_none() && k % 5 != 0 { continue }
+                ctx.nontrivial(format!("children {label} {:?} order={:?}", variant.fault, perm));
+                cases.push(json!({
+                    "scenario": to_json(&Scenario {
+                        world: setup.world.clone(), opts: opts.clone(),
+                        runs: vec![
+                            run_children(&setup, T0, setup.v1, Order::Sorted),
+                            run_children(&setup, T0 + 900, variant.index, Order::Table(vec![perm.clone()])),
+                        ],
+                    }),
+                    "focus": "kid", "memo": 1,
+                }));
+            }
+        }
+    }
+
     // D. ASPA, router certificates, GBR; longer histories with seeded orders:
     //    v1, broken v2, (complete v2 | v3 | broken again | v1 replayed).
     let setup_rich = setup("kid", 4, true, &["missing", "corrupt"]);
@@ -306,6 +377,72 @@ fn generate(ctx: &mut Ctx) -> Vec<Value> {
         ], 1));
     }
     cases
+}
+
+/// Grandchildren of the standard universe: (name, key, resources, ASN).
+const GRAND: [(&str, usize, &str, u32); 3] = [
+    ("g1", 2, "10.1.200.0/24", 65800),
+    ("g2", 3, "10.1.201.0/24", 65810),
+    // Same key as g1, another publication point: "the child's certificate replaced".
+    ("g1b", 2, "10.1.202.0/24", 65820),
+];
+
+fn grand_cert(name: &str) -> ObjSpec {
+    let (ca_name, _, pfx, asn) = GRAND.iter().find(|g| g.0 == name).copied().unwrap();
+    // g1 and g1b are published under the same file name.
+    let file = if name == "g1b" { "g1.cer" } else { &format!("{name}.cer") };
+    let serial = 700 + (asn - 65800) as u64;
+    child_cert(file, serial, ca_name, Res::v4(&[pfx]).with_asn(asn, asn + 9))
+}
+
+/// root -> kid -> grandchildren. kid's version 0 = {ROA, g1.cer}; version 2 and its
+/// broken variants contain `objects` ("roa", "roa2", or a grandchild name).
+fn setup_children(objects: &[&str]) -> Setup {
+    let mut world = base_world();
+    let mut v = version(1, T0 - HOUR, T0 + 30 * DAY);
+    v.objects.push(kid_cert());
+    v.objects.push(roa("x.roa", 900, asn_base("root") + 900, &prefix("root", 9, 0), None));
+    world.ca_mut("root").unwrap().versions.push(v);
+    for (name, key, pfx, asn) in GRAND {
+        let mut spec = ca(name, key, &format!("rpki.test/repo/{name}/"), "rsync://rpki.test/repo/kid/g.cer");
+        let mut v = version(1, T0 - HOUR, T0 + 30 * DAY);
+        v.objects.push(roa("g.roa", 30, asn, pfx, None));
+        spec.versions.push(v);
+        world.cas.push(spec);
+    }
+    let mut versions = Vec::new();
+    let mut v1 = version(1, T0 - HOUR, T0 + 30 * DAY);
+    v1.objects.push(payload_obj("kid", 1, 0, false));
+    v1.objects.push(grand_cert("g1"));
+    versions.push(v1);
+    let mut v2 = version(2, T0 - HOUR + 600, T0 + 30 * DAY);
+    for (idx, what) in objects.iter().enumerate() {
+        v2.objects.push(match *what {
+            "roa" => payload_obj("kid", 2, idx as u32, false),
+            "roa2" => payload_obj("kid", 2, idx as u32, false),
+            name => grand_cert(name),
+        });
+    }
+    let mut variants = vec![Variant { index: versions.len(), fault: None }];
+    versions.push(v2.clone());
+    for j in 0..v2.objects.len() {
+        let mut v = v2.clone();
+        v.objects[j].publish = if j % 2 == 0 { Publish::Missing } else { Publish::Corrupt };
+        variants.push(Variant { index: versions.len(), fault: Some((j, if j % 2 == 0 { "missing" } else { "corrupt" })) });
+        versions.push(v);
+    }
+    let entries = v2.objects.len() + 1;
+    world.ca_mut("kid").unwrap().versions = versions;
+    Setup { world, focus: "kid".into(), variants, v1: 0, v3: 0, entries }
+}
+
+fn run_children(_setup: &Setup, now: i64, version: usize, order: Order) -> RunSpec {
+    let mut points = vec![("root".to_string(), 0), ("kid".to_string(), version)];
+    for (name, ..) in GRAND { points.push((name.to_string(), 0)) }
+    RunSpec {
+        now, serve: Serve { tas: vec![ta_cert()], points, rsync: vec![] },
+        order, update: None, tamper: vec![],
+    }
 }
 
 fn setup_corrupt_half() -> Setup { setup("kid", 3, false, &["corrupt"]) }
